@@ -1,6 +1,6 @@
-(* C16 — property theorems (on the specification side; being extended). *)
-From Coq Require Import List String Bool.
-From NGF Require Import lib.Str k8s.State k8s.Spec.
+(* C16 — property theorems (on the specification side: k8s/Spec.v is what the C16 check compares the generated servers with). *)
+From Coq Require Import List String ZArith Bool.
+From NGF Require Import lib.Str k8s.State k8s.Spec C16.SecretProofs.
 Import ListNotations.
 
 (* A backend whose BackendTLSPolicy is invalid (missing CA ConfigMap, ...) is never in effect. *)
@@ -16,3 +16,21 @@ Qed.
 Theorem C16_no_tls_from_invalid_backend :
   forall cs r b, backend_valid cs r b = false -> backend_tls cs r b = None.
 Proof. intros cs r b H. unfold backend_tls. rewrite H. reflexivity. Qed.
+
+(* The certificate prescribed for a TLS request belongs to a valid listener of the winning Gateway on the request's port; for an
+   HTTPS listener its Secret exists, is a usable key pair, and is in the Gateway's namespace or permitted by a ReferenceGrant. *)
+Theorem C16_presented_certificate_is_usable_and_permitted : forall cs q ns name amb,
+  expected_secret cs q = Some (ns, name, amb) ->
+  exists g l cr,
+    winning_gateway cs = Some g /\ In l (g_listeners g) /\ (l_port l =? q_port q)%Z = true /\
+    listener_valid cs g l = true /\ l_cert l = Some cr /\
+    ns = (match cr_ns cr with Some n => n | None => g_ns g end) /\ name = cr_name cr /\
+    (l_proto l = PHTTPS ->
+       (seqb ns (g_ns g) || ref_permitted cs ns "Secret" name "Gateway" (g_ns g)) = true /\
+       existsb (fun s => seqb (sec_ns s) ns && seqb (sec_name s) name && sec_ok s) (c_secrets cs) = true).
+Proof. exact expected_secret_sound. Qed.
+
+(* An HTTPS listener whose Secret is missing, unusable or not permitted is not valid (and so serves no certificate). *)
+Theorem C16_unusable_secret_invalidates_listener : forall cs g l,
+  l_proto l = PHTTPS -> cert_ok cs g l = false -> listener_valid cs g l = false.
+Proof. exact unusable_secret_invalidates_listener. Qed.
